@@ -135,7 +135,9 @@ def query_check(run, gens, own_clauses, rule, assumptions, ops=False, mc=None, r
 
 # --------------------------------------------------------------------------------------
 def c02(run):
-    gens = [("Gen_Selector", "sel", 16, 24, 6000, 70000, ["SelectionLaw", "EmitSel"], 1000)]
+    gens = [("Gen_Selector", "sel", 16, 24, 6000, 70000, ["SelectionLaw", "EmitSel"], 1000),
+            # tick 500 ms: samples two ticks apart, 23 steps of one tick (finer than the sample spacing, three batches of steps)
+            ("Gen_Selector", "sel500", 48, 64, 2500, 30000, ["SelectionLaw", "EmitSel"], 500)]
     return query_check(
         run, gens, RESULT,
         rule=("TLC enumerates every sample layout x lookback x per-query lookback x offset x @ x step x window of the "
@@ -220,7 +222,7 @@ def c01(run):
 ALL_GENS = [("Gen_Selector", "sel", 16, 24, ["EmitSel"], 1000), ("Gen_Window", "win", 8, 16, ["EmitWin"], 1000),
             ("Gen_Agg", "agg", 1, 1, ["EmitAgg"], 1000), ("Gen_Bin", "bin", 1, 1, ["EmitBin"], 1000),
             ("Gen_Func", "fn", 1, 1, ["EmitFn"], 1000), ("Gen_Compose", "cmp", 8, 8, ["EmitCmp"], 1000),
-            # many series (0..40 of one metric, several per group and per shard) under a basket of 24 queries
+            # many series (0..40 of one metric, several per group and per shard) under a basket of 27 queries
             ("Shards", "shard", 2, 1, ["EmitShard"], 1000),
             # degenerate / colliding / extreme inputs (holes, hand-overs between metrics, histograms, 1e308, denormals)
             ("Gen_WF", "wf", 1, 1, ["EmitWF"], 1000)]
@@ -494,7 +496,7 @@ def c11(run):
     return vlib.finish(run, "model_checking",
                        rule=("Shards.tla: for all n <= 40 series and N <= 8 shards the shard slices partition the series and the re-based IDs are "
                              "an order-preserving bijection (TLC, exhaustive). Scenarios with 0..40 series (every remainder of n mod shards) over a "
-                             "24-query basket covering every operator kind, plus general and random scenarios, are executed under GOMAXPROCS "
+                             "27-query basket covering every operator kind, plus general and random scenarios, are executed under GOMAXPROCS "
                              "1,2,3,4,5,6,8,12,16, seeded permutations of the storage's series order, decoy series, seeded yields/sleeps in storage "
                              "callbacks and at the engine's scheduling points (hook H2), and repetitions; SessionTrace.tla (result independent of "
                              "all of these) is validated by TLC. distinct_nontrivial = executions compared with the first of their scenario."),
